@@ -67,11 +67,11 @@ def small_config(scheme, i):
     return c
 
 
-def explicit_case(scheme, cfg, lens, seed, id_mode="be"):
+def explicit_case(scheme, cfg, lens, seed, id_mode="be", id_seed=7):
     desc = S.DESCS[scheme]
     kws = [(b"w%d" % i).hex() for i in range(len(lens))]
     return {"scheme": scheme, "cfg": cfg,
-            "db": {"id_size": desc.id_size(cfg), "kws": kws, "lens": list(lens), "id_mode": id_mode, "id_seed": 7,
+            "db": {"id_size": desc.id_size(cfg), "kws": kws, "lens": list(lens), "id_mode": id_mode, "id_seed": id_seed,
                    "profile": "explicit"},
             "seed": seed}
 
@@ -125,6 +125,11 @@ def explicit_cases(scheme, tier, seed):
         for prof in ([8] * 63 + [3], [8] * 63 + [5], [8] * 62 + [9], [8] * 62 + [7], [8] * 63):
             if lens_valid(desc, cfg, prof):
                 yield ("pointer_width_boundary", explicit_case(scheme, dict(cfg), prof, seed))
+    if scheme == "CGKO06.SSE2":
+        # SSE-2 keeps identifiers in the clear inside its serialized index: identifiers that contain the format's own magic bytes
+        cfg = small_config(scheme, 0)
+        cfg["param_identifier_size"] = 24
+        yield ("identifiers_containing_format_magic", explicit_case(scheme, cfg, [3, 2], seed, id_mode="special", id_seed=8))
     if scheme == "CGKO06.SSE2":
         # one keyword in more than 256 documents (the per-document counter of the PRP input needs a second byte)
         cfg = small_config(scheme, 0)
